@@ -3,6 +3,13 @@
 Engine E1 (tasks): logical callers interleave put / get / cancel-of-pending-get
 on one real DeferredQueue; the tape chooses the interleaving.  Oracle: an
 independent bounded-FIFO reference model, compared after every operation.
+
+The model queues put TOKENS (the n-th put), never the objects, and every comparison
+of objects is by identity: the statement speaks of "every object put", so the same
+object put twice must come out twice, and an equal-but-distinct object is not a
+substitute.  The objects therefore come from a vocabulary in which equality and
+identity disagree (see _make_pool), besides the fresh unique integers.  The queue is
+created through each spelling of its documented constructor.
 """
 from twisted.internet import defer
 from twisted.python.failure import Failure
@@ -16,9 +23,73 @@ USES_DEPTH = True   # thorough tier: history length bound scales with sim.depth 
 BATCH = 400
 COMPONENTS = {"real": ["twisted.internet.defer.DeferredQueue", "twisted.internet.defer.Deferred"],
               "stub": ["order in which independent callers issue operations (tape)"]}
-RULE = ("run = up to 40 tape-chosen operations (put unique value / get / cancel pending get / re-entrant op from a get callback) "
-        "on a queue with tape-chosen size and backlog; non-trivial = at least one get had to wait AND (a cancel, an overflow, an underflow or a re-entrant op occurred)")
-ASSUMPTIONS = ["operations are issued from outside callbacks or from a get callback (re-entrant); no other re-entrancy"]
+RULE = ("run = up to 40 tape-chosen operations (put / get / cancel pending get / re-entrant op from a get callback) "
+        "on a queue with tape-chosen size and backlog, created in a tape-chosen spelling of the documented constructor "
+        "(both limits by keyword / both positionally / size positionally + backlog by keyword / trailing None limits left out); "
+        "the objects put are fresh unique integers or, with a per-run probability, drawn from a per-run pool of objects whose "
+        "equality is not identity (the very same object put again, equal-but-distinct objects, falsy and unhashable objects, "
+        "objects equal to everything / to nothing); the oracle follows every put by position and compares by identity; "
+        "non-trivial = at least one get had to wait AND (a cancel, an overflow, an underflow or a re-entrant op occurred)")
+ASSUMPTIONS = ["operations are issued from outside callbacks or from a get callback (re-entrant); no other re-entrancy",
+               "objects put are neither Deferreds nor Failures (Deferred.callback gives those a meaning of their own)",
+               "the limits are given to the constructor (size first, backlog second, or by keyword) and not changed afterwards"]
+
+# Share of puts that take their object from the per-run pool (first = simplest: every object fresh and unique).
+POOL_P = [0.0, 0.5, 0.85]
+# Spellings of DeferredQueue(size=None, backlog=None) (first = simplest).
+CTOR_FORMS = ["keywords", "positional", "size-positional", "short"]
+
+
+class _EqualToAll:
+    def __repr__(self):
+        return "<eq-all>"
+
+    def __eq__(self, other):
+        return True
+
+    def __ne__(self, other):
+        return False
+
+    __hash__ = None
+
+
+class _EqualToNone:
+    def __repr__(self):
+        return "<eq-none>"
+
+    def __eq__(self, other):
+        return False
+
+    def __ne__(self, other):
+        return True
+
+    def __hash__(self):
+        return 7
+
+
+def _make_pool():
+    """Fresh objects per run: (name, object).  Several equality classes with more than one member, falsy members,
+    unhashable members, and members whose == ignores identity altogether."""
+    return [("one", 1), ("one-float", float("1")), ("true", True),
+            ("tuple-a", tuple(["t", 1])), ("tuple-b", tuple(["t", 1])),
+            ("none", None), ("zero", 0), ("empty-str", ""),
+            ("list-a", []), ("list-b", []),
+            ("eq-all", _EqualToAll()), ("eq-none", _EqualToNone()),
+            ("nan", float("nan"))]
+
+
+def _make_queue(form, size, backlog):
+    if form == "positional":
+        return defer.DeferredQueue(size, backlog)
+    if form == "size-positional":
+        return defer.DeferredQueue(size, backlog=backlog)
+    if form == "short":
+        if backlog is not None:
+            return defer.DeferredQueue(size, backlog)
+        if size is not None:
+            return defer.DeferredQueue(size)
+        return defer.DeferredQueue()
+    return defer.DeferredQueue(size=size, backlog=backlog)
 
 
 class Model:
@@ -54,20 +125,39 @@ def run(sim):
     backlog = sim.draw_choice([None, 0, 1, 2, 3], "backlog")
     nops = sim.draw_int(3, 40 * sim.depth, "nops")
     reent_p = sim.draw_choice([0.0, 0.0, 0.3], "reentrancy")
-    sim.config = {"size": size, "backlog": backlog, "nops": nops, "reentrant": reent_p}
-    q = defer.DeferredQueue(size=size, backlog=backlog)
-    m = Model(size, backlog)
+    pool_p = sim.draw_choice(POOL_P, "pool_p")
+    form = sim.draw_choice(CTOR_FORMS, "ctor")
+    sim.config = {"size": size, "backlog": backlog, "nops": nops, "reentrant": reent_p, "pool_p": pool_p, "ctor": form}
+    sim.probe("ctor_" + form)
+    # every spelling of the documented signature DeferredQueue(size=None, backlog=None) must yield a queue with these limits
+    with sim.guard("queue-created", form):
+        q = _make_queue(form, size, backlog)
+    m = Model(size, backlog)      # the model queues put tokens (0, 1, 2 ... in put order), never the objects themselves
+    pool = _make_pool()
     st = {"next_val": 0, "next_gid": 0, "depth": 0}
+    objs = []       # token -> object handed to put()
+    names = []      # token -> abstract name of that object (for the trace)
     got = {}        # gid -> list of results observed by that get's callback
     pending = {}    # gid -> Deferred still waiting (by the model)
-    expect = {}     # gid -> expected value
-    delivered = []  # values in delivery order
-    put_order = []
+    expect = {}     # gid -> token of the put whose object it must receive
+    delivered = []  # objects in delivery order
+    put_order = []  # tokens of the accepted puts, in put order
     flags = {"waited": 0, "special": 0}
+
+    def name_of(res):
+        # first put of this very object (identity): deterministic, no repr of foreign objects in the trace
+        for t, o in enumerate(objs):
+            if o is res:
+                return names[t]
+        return "never-put:" + type(res).__name__
+
+    def saw_only(gid, tok):
+        r = got.get(gid)
+        return r is not None and len(r) == 1 and r[0] is objs[tok]
 
     def on_result(res, gid):
         got.setdefault(gid, []).append(res)
-        sim.event("got", gid, "F:" + res.type.__name__ if isinstance(res, Failure) else res)
+        sim.event("got", gid, "F:" + res.type.__name__ if isinstance(res, Failure) else name_of(res))
         if not isinstance(res, Failure):
             delivered.append(res)
         if st["depth"] < 2 and reent_p and sim.draw_bool(reent_p, "reenter"):
@@ -81,16 +171,29 @@ def run(sim):
         return None
 
     def do_put():
-        v = st["next_val"]
-        st["next_val"] += 1
-        kind, gid = m.put(v)
-        sim.event("put", v, kind, gid if gid is not None else "-")
+        if pool_p and sim.draw_bool(pool_p, "pooled"):
+            name, v = sim.draw_choice(pool, "which_obj")
+            sim.probe("put_pool_object")
+            if any(objs[t] is v for t in m.values):
+                sim.probe("put_object_already_queued")
+            elif any(objs[t] == v or v == objs[t] for t in m.values):
+                sim.probe("put_equal_of_queued_object")
+        else:
+            v = st["next_val"]
+            st["next_val"] += 1
+            name = v
+        tok = len(objs)
+        objs.append(v)
+        names.append(name)
+        equal_queued = any(objs[t] is v or objs[t] == v or v == objs[t] for t in m.values)
+        kind, gid = m.put(tok)
+        sim.event("put", tok, name, kind, gid if gid is not None else "-")
         if kind == "deliver":
-            expect[gid] = v
+            expect[gid] = tok
             pending.pop(gid)
-            put_order.append(v)
+            put_order.append(tok)
         elif kind == "queued":
-            put_order.append(v)
+            put_order.append(tok)
         try:
             q.put(v)
             raised = False
@@ -99,17 +202,20 @@ def run(sim):
         if kind == "overflow":
             flags["special"] += 1
             sim.probe("overflow")
+            if equal_queued:
+                sim.fault("refused_put_equal_to_queued")
         sim.check("overflow-iff", raised == (kind == "overflow"), "put", "model=%s raised=%s" % (kind, raised))
         if kind == "deliver":
-            sim.check("oldest-waiter", got.get(gid) == [v], "put", "waiter %s saw %r expected [%r]" % (gid, got.get(gid), v))
+            sim.check("oldest-waiter", saw_only(gid, tok), "put",
+                      lambda: "waiter %s saw %r expected [%r]" % (gid, got.get(gid), v))
 
     def do_get():
         gid = st["next_gid"]
         st["next_gid"] += 1
-        kind, v = m.get(gid)
+        kind, tok = m.get(gid)
         sim.event("get", gid, kind)
         if kind == "value":
-            expect[gid] = v
+            expect[gid] = tok
         try:
             d = q.get()
             raised = False
@@ -127,9 +233,10 @@ def run(sim):
             flags["waited"] += 1
         d.addBoth(on_result, gid)
         if kind == "value":
-            sim.check("immediate-value", got.get(gid) == [v], "get", "get %s saw %r expected [%r]" % (gid, got.get(gid), v))
+            sim.check("immediate-value", saw_only(gid, tok), "get",
+                      lambda: "get %s saw %r expected [%r]" % (gid, got.get(gid), objs[tok]))
         else:
-            sim.check("no-early-fire", gid not in got, "get", "waiting get %s fired with %r" % (gid, got.get(gid)))
+            sim.check("no-early-fire", gid not in got, "get", lambda: "waiting get %s fired with %r" % (gid, got.get(gid)))
 
     def do_cancel():
         gid = sim.draw_choice(sorted(pending), "which")
@@ -151,20 +258,43 @@ def run(sim):
         else:
             do_cancel()
 
+    def same_objects(real, toks):
+        return len(real) == len(toks) and all(a is objs[t] for a, t in zip(real, toks))
+
     for _ in range(nops):
         sim.step(200 * sim.depth)
         ops = [("put", 5), ("get", 5), ("cancel", 2 if pending else 0)]
         do_op(sim.draw_weighted(ops, "op"))
-        # cross-invariants after every operation
+        # cross-invariants after every operation (all comparisons of objects by identity: "every object put", not "an equal one")
         for gid, r in got.items():
             sim.check("fires-once", len(r) == 1, "any", "get %s fired %d times" % (gid, len(r)))
             if gid in expect:
-                sim.check("right-value", r[0] == expect[gid], "any", "get %s got %r expected %r" % (gid, r[0], expect[gid]))
+                sim.check("right-value", r[0] is objs[expect[gid]], "any",
+                          lambda: "get %s got %r expected %r (put #%d)" % (gid, r[0], objs[expect[gid]], expect[gid]))
         for gid in expect:
-            sim.check("expected-delivered", gid in got, "any", "get %s never received %r" % (gid, expect[gid]))
-        sim.check("fifo-exactly-once", delivered == put_order[:len(delivered)] and len(set(delivered)) == len(delivered),
-                  "any", "delivered=%r put_order=%r" % (delivered, put_order))
-        sim.check("pending-matches", len(q.waiting) == len(m.waiters) and list(q.pending) == m.values, "state",
-                  "real waiting=%d pending=%r model waiters=%r values=%r" % (len(q.waiting), q.pending, m.waiters, m.values))
+            sim.check("expected-delivered", gid in got, "any", lambda: "get %s never received put #%d" % (gid, expect[gid]))
+        # each accepted put is delivered once, at its own place in put order (the same object put twice comes out twice)
+        sim.check("fifo-exactly-once", same_objects(delivered, put_order[:len(delivered)]),
+                  "any", lambda: "delivered=%r accepted puts in order=%r" % (delivered, [objs[t] for t in put_order]))
+        sim.check("pending-matches", len(q.waiting) == len(m.waiters) and same_objects(list(q.pending), m.values), "state",
+                  lambda: "real waiting=%d pending=%r model waiters=%r values=%r (tokens %r)"
+                  % (len(q.waiting), q.pending, m.waiters, [objs[t] for t in m.values], m.values))
         sim.state((min(len(m.values), 4), min(len(m.waiters), 4), size, backlog))
     sim.nontrivial = bool(flags["waited"] and flags["special"])
+
+
+MUTANTS = [
+    "put: 'len(self.pending) < self.size' -> '<=' / get: same on backlog -> caught (overflow-iff / underflow-iff)",
+    "_cancelGet does not remove the Deferred -> caught (pending-matches, underflow-iff)",
+    "put: waiting.pop(0) -> waiting.pop() -> caught (oldest-waiter)",
+    "put: object appended first and taken out again BY VALUE (list.remove) when refused -> caught (pending-matches; needs a refused "
+    "put whose object equals a queued one: fault refused_put_equal_to_queued)",
+    "put: 'if obj not in self.pending: append' (silent de-duplication) -> caught (pending-matches)",
+    "get: hands out the LAST queued object when it equals the first -> caught (immediate-value, pending-matches: identity and position)",
+    "put: hands a waiter an equal cached object instead of the object put ('1 if obj == 1 else obj') -> caught (oldest-waiter, identity)",
+    "get: 'if self.pending and self.pending[0] is not None' (falsy/None head treated as empty) -> caught (immediate-value, underflow-iff)",
+    "put: 'not self.size' instead of 'self.size is None' (size 0 = unlimited) -> caught (overflow-iff)",
+    "__init__: positional order of the limits swapped (attrs field order / explicit swap when both given) -> caught "
+    "(overflow-iff, underflow-iff, queue-created:size-positional:TypeError; needs the positional spellings of the constructor)",
+    "__init__: backlog made keyword-only -> caught (queue-created:positional:TypeError)",
+]
